@@ -22,12 +22,16 @@ A labelled transition system.
   the final `None`.  Polled while `need > 0` it returns `Pending` and remembers ONLY the waker of
   that last poll; a `fire` event decrements `need` and wakes (and forgets) the remembered waker.
   Polled with `need = 0` it yields the item (or `None`, then `None` for ever).
-* wakers: task `c`'s waker sets `woken c` and is logged in `wakeLog` (what the harness' flag wakers
-  record).  The executor clears `woken c` when it polls task `c` (`fresh = true`).
+* wakers: consumer `c` is polled with the waker of task `grp c` (`grp = id`: every request lives in a
+  task of its own; two requests joined in one task – `join!`, `FuturesUnordered` – share that task's
+  waker).  Waker `w` sets `woken t` for EVERY consumer `t` with `grp t = w` and is logged in `wakeLog`
+  (what the harness' flag wakers record).  The executor clears `woken c` when it polls consumer `c`
+  (`fresh = true`).  `grp` never changes during a run.
 * `items : List α` is the `UnsafeCell<ChunkyVec>` (append-only; reference stability is trusted).
 * no cancellation: a request that is waiting (`Pending`) is never dropped (`start` on an active
   consumer and `finish` on a waiting one are no-ops).
-* not modelled: `prefetch`, the `unsafe` pin projections / `PinCell` and `RefCell` borrows (a source or
+* `prefetch` (both flavours) is the identity on this state (it only forwards to the source's own hook).
+* not modelled: the `unsafe` pin projections / `PinCell` and `RefCell` borrows (a source or
   waker that re-enters the cache would panic on the borrow; wakers here only set flags), and what the
   three `bundles.rs` macros do with a bundle besides deciding whether to go on (that is C16).
   A request of depth `want` goes on until it has been handed `max want 1` bundles or `None`.
@@ -45,7 +49,7 @@ deriving Repr, DecidableEq
 structure Source (α : Type) where
   rest : List (Nat × α)      -- items not yet yielded, with the number of `fire` events still needed
   endNeed : Nat              -- `fire` events still needed before the end can be reported
-  waker : Option Task := none  -- waker of the last poll that returned `Pending`
+  waker : Option Task := none  -- waker (id of its task) of the last poll that returned `Pending`
   polls : Nat := 0           -- `poll_next`/`next` calls so far
   pulls : Nat := 0           -- items yielded so far
 
@@ -92,25 +96,28 @@ structure St (α : Type) where
   items : List α := []              -- AsyncCache.items / Cache.items
   pending : List Task := []         -- AsyncCache.pending_wakes
   cons : Task → Consumer α := fun _ => {}
-  wakeLog : List Task := []         -- every `Waker::wake` call so far, most recent first
+  wakeLog : List Task := []         -- every `Waker::wake` call so far (waker ids), most recent first
+  grp : Task → Task := id           -- consumer `c` is polled with the waker of task `grp c` (constant)
 
 def St.modCons (s : St α) (c : Task) (f : Consumer α → Consumer α) : St α :=
   { s with cons := fun t => if t = c then f (s.cons c) else s.cons t }
 
-/-- `Waker::wake` of task `t` -/
-def St.wake (s : St α) (t : Task) : St α :=
-  { s.modCons t (fun k => { k with woken := true }) with wakeLog := t :: s.wakeLog }
+/-- `Waker::wake` of waker `w` (the waker of task `w`): every consumer polled with it becomes runnable -/
+def St.wake (s : St α) (w : Task) : St α :=
+  { s with
+    cons := fun t => if s.grp t = w then { s.cons t with woken := true } else s.cons t
+    wakeLog := w :: s.wakeLog }
 
 /-- `for waker in wakers { waker.wake() }` -/
 def St.wakeAll (s : St α) (ts : List Task) : St α := ts.foldl St.wake s
 
-/-- `AsyncCache::poll_next_item` called with task `c`'s waker -/
+/-- `AsyncCache::poll_next_item` called by consumer `c`, i.e. with the waker of task `grp c` -/
 def pollNextItem (s : St α) (c : Task) : St α × PollRes α :=
-  match s.src.poll c with
+  match s.src.poll (s.grp c) with
   | (src', .ready v) => (St.wakeAll { s with src := src', pending := [] } s.pending, .ready v)
-  | (src', .pending) => ({ s with src := src', pending := s.pending ++ [c] }, .pending)
+  | (src', .pending) => ({ s with src := src', pending := s.pending ++ [s.grp c] }, .pending)
 
-/-- `AsyncCacheStream::poll_next` of consumer `c`'s stream, polled with task `c`'s waker -/
+/-- `AsyncCacheStream::poll_next` of consumer `c`'s stream, polled with the waker of task `grp c` -/
 def pollNext (s : St α) (c : Task) : St α × PollRes α :=
   let curr := (s.cons c).curr
   if curr < s.items.length then
@@ -179,8 +186,8 @@ def step (s : St α) : Label → St α
 
 def run (s : St α) (ls : List Label) : St α := ls.foldl step s
 
-def init (script : List (Nat × α)) (endNeed : Nat) : St α :=
-  { src := { rest := script, endNeed := endNeed } }
+def init (script : List (Nat × α)) (endNeed : Nat) (grp : Task → Task := id) : St α :=
+  { src := { rest := script, endNeed := endNeed }, grp := grp }
 
 /-! ## Task-level operations (what the harness can drive through `Bundles`) -/
 
